@@ -140,6 +140,9 @@ struct Tracked {
   }
   void touch(Ev e) const {
     g_obj[serial].stamp = g_stamp;
+    (void)e;
+  }
+  void count(Ev e) const {
     ++g_ev_all[e];
     if (g_monitor_depth == 0) ++g_ev[e];
   }
@@ -192,6 +195,7 @@ struct Tracked {
     if (ok) {
       if (this != &o) flags &= ~kMovedFrom;
       touch(EV_CASSIGN);
+      count(EV_CASSIGN);
     }
     return *this;
   }
@@ -211,6 +215,7 @@ struct Tracked {
     if (ok) {
       flags &= ~kMovedFrom;
       touch(EV_MASSIGN);
+      count(EV_MASSIGN);
     }
     o.flags |= kMovedFrom;
     if ((o.flags & kMagicMask) == kLiveMagic) o.touch(EV_MASSIGN);
